@@ -108,10 +108,14 @@ GET_PERCENTILES = dict(
     externals={"self.get": GET_EXT, "sorted": SORTED_EXT, "collections.OrderedDict": dict(new_dict=("real", "real"))},
     at_call={"self.get": GET_ARGS, "sorted": ["ref(a0) == ref($vals)"]},
     # the results pipeline always names the percentiles it wants (percentiles_for_sample_size); the default list [99, 99.9, 100] is outside the property
-    requires=["not isnone(percentiles)", "implies(not isnone(percentiles), forall(lambda j: implies(0 <= j and j < len(percentiles), 0 <= percentiles[j] and percentiles[j] <= 100)))"],
+    requires=["not isnone(percentiles)", "forall(lambda a: implies(0 <= a and a + 1 < len(percentiles), percentiles[a] < percentiles[a + 1]))",  # ascending, as percentiles_for_sample_size guarantees (proved there)
+              "implies(not isnone(percentiles), forall(lambda j: implies(0 <= j and j < len(percentiles), 0 <= percentiles[j] and percentiles[j] <= 100)))"],
     returns="dict[real,real]",
     loops={0: dict(modifies_objs=["result"], inv=["len($vals) > 0 and len($sv) == len($vals) and " + sorted_fact("$sv"), "ref(result) != ref($sv) and ref(result) != ref(percentiles)",
-                        "forall(lambda j: implies(0 <= j and j < _i, has(result, percentiles[j]) and result[percentiles[j]] == PV($sv, percentiles[j])))",
+                                                 "forall(lambda a: implies(0 <= a and a + 1 < len(percentiles), percentiles[a] < percentiles[a + 1]))",
+                        "implies(_i < len(percentiles), forall(lambda j: implies(0 <= j and j < _i, percentiles[j] < percentiles[_i])))",
+                        "forall(lambda j: implies(0 <= j and j < _i, has(result, percentiles[j])))",
+                        "forall(lambda j: implies(0 <= j and j < _i, result[percentiles[j]] == PV($sv, percentiles[j])))",
                         ])},
     ensures=[
         # no values -> nothing reported
